@@ -60,6 +60,11 @@ MODULES = {
                    ("chalk-recursive/src/fixed_point/cache.rs", None), ("chalk-recursive/src/recursive.rs", None),
                    ("chalk-recursive/src/solve.rs", None)],
     "Truncate": [("chalk-solve/src/solve/truncate.rs", None)],
+    # the traversal TySizeVisitor rides on (which sub-terms super_visit_with reaches)
+    "Visit": [("chalk-ir/src/visit.rs", None), ("chalk-ir/src/visit/boring_impls.rs", None),
+              ("chalk-ir/src/visit/binder_impls.rs", None),
+              ("chalk-ir/src/lib.rs", ["DynTy", "FnSubst", "AliasTy", "ProjectionTy", "OpaqueTy", "TraitRef", "AliasEq",
+                                       "LifetimeOutlives", "TypeOutlives"])],
     "InPlace": [("chalk-ir/src/fold/in_place.rs", None)],
     "Coherence": [("chalk-solve/src/coherence.rs", None), ("chalk-solve/src/coherence/solve.rs", None)],
     "Orphan": [("chalk-solve/src/coherence/orphan.rs", None),
@@ -100,7 +105,7 @@ SOLVERS = ["SLG", "Recursive", "Lowering", "Infer", "Unify", "Canon", "UCanon", 
 PROPS = {
     "C01": SOLVERS + ["Aggregate"], "C02": SOLVERS + ["FixedPoint"], "C03": SOLVERS + ["AnswerStream"],
     "C04": SOLVERS, "C05": SOLVERS + ["FixedPoint"], "C06": SOLVERS, "C07": SOLVERS,
-    "C08": SOLVERS + ["Builtin"], "C09": SOLVERS + ["FixedPoint"], "C10": SOLVERS + ["FixedPoint", "Aggregate"],
+    "C08": SOLVERS + ["Builtin"], "C09": SOLVERS + ["FixedPoint", "Visit"], "C10": SOLVERS + ["FixedPoint", "Aggregate"],
     "C11": SOLVERS + ["FixedPoint", "Aggregate"], "C12": SOLVERS + ["FixedPoint"],
     "C13": SOLVERS + ["Aggregate"], "C14": ["Infer", "Unify", "Fold", "Subst", "Syntax"],
     "C15": ["Infer", "Unify", "Fold", "Syntax"], "C16": ["Infer", "Canon", "UCanon", "Invert", "Fold", "Syntax"],
